@@ -775,3 +775,101 @@ def roles_by_definition(fn: ast.AST, roles: dict[str, str]) -> dict[str, str]:
         out[actual] = role
     # a swap (a->b, b->a) is fine; a chain a->b where b is an actual local not itself renamed was excluded above
     return out
+
+
+def dispatch_tables(fn: ast.AST) -> list[tuple[str, dict[str, list[ast.stmt]], list[ast.stmt] | None, ast.AST]]:
+    """Every dispatch on one subject written in `fn`, whether as a `match` over value patterns or as an if / elif chain
+    (or a run of `if S == V: <exit>` statements) comparing one subject with values:
+        (subject text, {value text: body}, default body or None, node)
+    A subject that is a local bound once (`k = op.kind`) is reported by the expression it stands for.  Patterns that are
+    not plain values are keyed `pattern:<text>`; a case with a guard is keyed `<value> if <guard>`."""
+    binds: dict[str, list[ast.expr]] = {}
+    for n in ast.walk(fn):
+        if isinstance(n, ast.Assign) and len(n.targets) == 1 and isinstance(n.targets[0], ast.Name):
+            binds.setdefault(n.targets[0].id, []).append(n.value)
+        elif isinstance(n, ast.AnnAssign) and isinstance(n.target, ast.Name) and n.value is not None:
+            binds.setdefault(n.target.id, []).append(n.value)
+        elif isinstance(n, ast.NamedExpr):
+            binds.setdefault(n.target.id, []).append(n.value)
+
+    def subj_text(e: ast.expr) -> str:
+        if isinstance(e, ast.Name) and len(binds.get(e.id, [])) == 1 and not isinstance(binds[e.id][0], ast.Constant):
+            return unparse(binds[e.id][0])
+        return unparse(e)
+
+    def atoms(test: ast.expr):
+        """[(subject expr, [value exprs])] for a test `S == V`, `V == S`, `S is V`, `S in (V, ...)` or an `or` of those on
+        one subject; None otherwise"""
+        parts = test.values if isinstance(test, ast.BoolOp) and isinstance(test.op, ast.Or) else [test]
+        subj = None
+        vals: list[ast.expr] = []
+        for p_ in parts:
+            if not (isinstance(p_, ast.Compare) and len(p_.ops) == 1):
+                return None
+            l_, o_, r_ = p_.left, p_.ops[0], p_.comparators[0]
+            if isinstance(o_, (ast.Eq, ast.Is)):
+                const_l = isinstance(l_, ast.Constant) or (isinstance(l_, ast.Attribute) and unparse(l_)[:1].isupper())
+                s_, v_ = (r_, [l_]) if const_l and not isinstance(r_, ast.Constant) else (l_, [r_])
+            elif isinstance(o_, ast.In) and isinstance(r_, (ast.Tuple, ast.List, ast.Set)):
+                s_, v_ = l_, list(r_.elts)
+            else:
+                return None
+            if subj is not None and unparse(subj) != unparse(s_):
+                return None
+            subj = s_
+            vals.extend(v_)
+        return (subj, vals) if subj is not None else None
+
+    out = []
+    in_chain: set[int] = set()
+
+    def chain(stmts: list[ast.stmt], i: int, s0: str, table: dict, members: list[int]):
+        """follow a dispatch on subject s0 from stmts[i]; returns the default block (or None)"""
+        while i < len(stmts):
+            st = stmts[i]
+            a_ = atoms(st.test) if isinstance(st, ast.If) else None
+            if a_ is None or unparse(a_[0]) != s0:
+                return stmts[i:]
+            members.append(id(st))
+            for v_ in a_[1]:
+                table.setdefault(unparse(v_), st.body)
+            if st.orelse:
+                return chain(st.orelse, 0, s0, table, members)
+            if not _terminates(st.body):
+                return None if i + 1 >= len(stmts) else stmts[i + 1 :]
+            i += 1
+        return None
+
+    for n in ast.walk(fn):
+        if isinstance(n, ast.Match):
+            table: dict[str, list[ast.stmt]] = {}
+            default = None
+            for c in n.cases:
+                pats = c.pattern.patterns if isinstance(c.pattern, ast.MatchOr) else [c.pattern]
+                for p_ in pats:
+                    if isinstance(p_, ast.MatchAs) and p_.pattern is None and p_.name is None and c.guard is None:
+                        default = c.body
+                        continue
+                    key = unparse(p_.value) if isinstance(p_, ast.MatchValue) else ("None" if isinstance(p_, ast.MatchSingleton) and p_.value is None else "pattern:" + unparse(p_))
+                    if c.guard is not None:
+                        key += " if " + unparse(c.guard)
+                    table.setdefault(key, c.body)
+            out.append((subj_text(n.subject), table, default, n))
+    for blk_owner in ast.walk(fn):
+        for fld in ("body", "orelse", "finalbody"):
+            blk = getattr(blk_owner, fld, None)
+            if not (isinstance(blk, list) and blk and isinstance(blk[0], ast.stmt)):
+                continue
+            for i, st in enumerate(blk):
+                if not isinstance(st, ast.If) or id(st) in in_chain:
+                    continue
+                a0 = atoms(st.test)
+                if a0 is None:
+                    continue
+                table = {}
+                members: list[int] = []
+                default = chain(blk, i, unparse(a0[0]), table, members)
+                if len(members) >= 2:
+                    in_chain.update(members)
+                    out.append((subj_text(a0[0]), table, default, st))
+    return out
